@@ -8,6 +8,8 @@
 (*                       obs.blk = {h, ok, kind, start, ms} per handle whose block *)
 (*                       (kind, Start, words) differs from before the call         *)
 (*   panic {a, msg}      the call panicked: no action explains it            *)
+(* An iterator budget n beyond +-2^30 is logged clamped to +-2^30 (same      *)
+(* meaning: only min(max(n,0), Len) matters), the real argument in a.nreal.  *)
 EXTENDS BitmapCodec, Json, IOUtils
 
 TraceLog == ndJsonDeserialize(IOEnv.VERIF_TRACE)
